@@ -378,6 +378,8 @@ func (ix Index) SQL() string {
 func GenIndex(t *rapid.T, name Ident, tb Table, unique, exprs, partial bool) Index {
 	ids := tb.ColumnIdents()
 	ix := Index{Ident: name, Table: tb.Ident, Unique: unique}
+	// (the ON clause may spell the table in another letter case)
+	ix.Table.SQL = Ref(t, tb.Ident, "ontable")
 	n := rapid.IntRange(1, min(3, len(ids))).Draw(t, "nic")
 	perm := rapid.Permutation(ids).Draw(t, "icp")
 	for i := 0; i < n; i++ {
